@@ -1014,83 +1014,36 @@ where
     /// * `packets` - Vector of packets to restore
     pub fn restore_packets(&mut self, packets: Vec<GenericStorePacket<PacketIdType>>) {
         for packet in packets {
-            match &packet {
-                GenericStorePacket::V3_1_1Publish(p) => {
-                    // Add to appropriate QoS tracking set
-                    match p.qos() {
-                        Qos::AtLeastOnce => {
-                            self.pid_puback.insert(p.packet_id().unwrap());
-                        }
-                        Qos::ExactlyOnce => {
-                            self.pid_pubrec.insert(p.packet_id().unwrap());
-                        }
-                        _ => {
-                            // QoS 0 shouldn't be in store, but handle gracefully
-                            warn!("QoS 0 packet found in store, skipping");
-                            continue;
-                        }
+            // Which response completes the restored exchange
+            let (packet_id, qos) = match &packet {
+                GenericStorePacket::V3_1_1Publish(p) => (p.packet_id(), Some(p.qos())),
+                GenericStorePacket::V5_0Publish(p) => (p.packet_id(), Some(p.qos())),
+                GenericStorePacket::V3_1_1Pubrel(p) => (Some(p.packet_id()), None),
+                GenericStorePacket::V5_0Pubrel(p) => (Some(p.packet_id()), None),
+            };
+            if qos == Some(Qos::AtMostOnce) {
+                warn!("QoS 0 packet found in store, skipping");
+                continue;
+            }
+            let packet_id = packet_id.unwrap();
+            // Only an entry whose packet id could be registered takes part in the session
+            if self.pid_man.register_id(packet_id).is_ok() {
+                match qos {
+                    Some(Qos::AtLeastOnce) => {
+                        self.pid_puback.insert(packet_id);
                     }
-                    // Register packet ID and add to store
-                    let packet_id = p.packet_id().unwrap();
-                    if self.pid_man.register_id(packet_id).is_ok() {
-                        if let Err(_e) = self.store.add(packet) {
-                            error!("Failed to add packet to store: {:?}", _e);
-                        }
-                    } else {
-                        error!("Packet ID {} has already been used. Skip it", packet_id);
+                    Some(_) => {
+                        self.pid_pubrec.insert(packet_id);
                     }
-                }
-                GenericStorePacket::V5_0Publish(p) => {
-                    // Add to appropriate QoS tracking set
-                    match p.qos() {
-                        Qos::AtLeastOnce => {
-                            self.pid_puback.insert(p.packet_id().unwrap());
-                        }
-                        Qos::ExactlyOnce => {
-                            self.pid_pubrec.insert(p.packet_id().unwrap());
-                        }
-                        _ => {
-                            // QoS 0 shouldn't be in store, but handle gracefully
-                            warn!("QoS 0 packet found in store, skipping");
-                            continue;
-                        }
-                    }
-                    // Register packet ID and add to store
-                    let packet_id = p.packet_id().unwrap();
-                    if self.pid_man.register_id(packet_id).is_ok() {
-                        if let Err(_e) = self.store.add(packet) {
-                            error!("Failed to add packet to store: {:?}", _e);
-                        }
-                    } else {
-                        error!("Packet ID {} has already been used. Skip it", packet_id);
+                    None => {
+                        self.pid_pubcomp.insert(packet_id);
                     }
                 }
-                GenericStorePacket::V3_1_1Pubrel(p) => {
-                    // Pubrel packets expect PUBCOMP response
-                    self.pid_pubcomp.insert(p.packet_id());
-                    // Register packet ID and add to store
-                    let packet_id = p.packet_id();
-                    if self.pid_man.register_id(packet_id).is_ok() {
-                        if let Err(_e) = self.store.add(packet) {
-                            error!("Failed to add packet to store: {:?}", _e);
-                        }
-                    } else {
-                        error!("Packet ID {} has already been used. Skip it", packet_id);
-                    }
+                if let Err(_e) = self.store.add(packet) {
+                    error!("Failed to add packet to store: {:?}", _e);
                 }
-                GenericStorePacket::V5_0Pubrel(p) => {
-                    // Pubrel packets expect PUBCOMP response
-                    self.pid_pubcomp.insert(p.packet_id());
-                    // Register packet ID and add to store
-                    let packet_id = p.packet_id();
-                    if self.pid_man.register_id(packet_id).is_ok() {
-                        if let Err(_e) = self.store.add(packet) {
-                            error!("Failed to add packet to store: {:?}", _e);
-                        }
-                    } else {
-                        error!("Packet ID {} has already been used. Skip it", packet_id);
-                    }
-                }
+            } else {
+                error!("Packet ID {} has already been used. Skip it", packet_id);
             }
         }
     }
